@@ -202,6 +202,9 @@ pub enum Seg {
     Direct(u8),
     /// wrap and drain through an adaptor: take(k).collect()
     Collect(u8),
+    /// wrap and use one of the positional / adaptor methods of Iterator (which a wrapper may
+    /// override): 0 nth(k) 1 skip(k).next() 2 step_by(k+1).take(3) 3 nth(k) twice
+    Positional(u8, u8),
 }
 
 #[derive(Debug, Clone, Serialize, Deserialize)]
@@ -263,6 +266,25 @@ fn it_body(c: &ItCase) -> Result<(usize, bool), Fail> {
                             );
                         }
                     }
+                    Seg::Positional(which, k) => {
+                        was_wrapped = true;
+                        last_direct = false;
+                        let k = *k as usize % 6;
+                        let v = |t: Option<HeapTok>| t.map(|t| t.val());
+                        let (a, b): (Vec<Option<u64>>, Vec<Option<u64>>) = match which % 4 {
+                            0 => (vec![v(src.as_citer().nth(k))], vec![v(model.by_ref().nth(k))]),
+                            1 => (vec![v(src.as_citer().skip(k).next())], vec![v(model.by_ref().skip(k).next())]),
+                            2 => (src.as_citer().step_by(k + 1).take(3).map(|t| Some(t.val())).collect(), model.by_ref().step_by(k + 1).take(3).map(|t| Some(t.val())).collect()),
+                            _ => {
+                                let mut w = src.as_citer();
+                                let a = vec![v(w.nth(k)), v(w.nth(k))];
+                                let m = model.by_ref();
+                                (a, vec![v(m.nth(k)), v(m.nth(k))])
+                            }
+                        };
+                        ensure!(a == b, "iter-item", "segment {si}: positional use {} with k={k} gave {:?} through the wrapper, the source gives {:?}", which % 4, a, b);
+                        yielded += a.iter().flatten().count();
+                    }
                     Seg::Collect(k) => {
                         was_wrapped = true;
                         last_direct = false;
@@ -323,6 +345,7 @@ pub fn it_strategy() -> impl Strategy<Value = ItCase> {
         4 => (0u8..3, 0u8..8).prop_map(|(c, k)| Seg::Wrapped(c, k)),
         2 => (0u8..4).prop_map(Seg::Direct),
         1 => (0u8..10).prop_map(Seg::Collect),
+        2 => (0u8..4, 0u8..6).prop_map(|(w, k)| Seg::Positional(w, k)),
     ];
     (
         prop::collection::vec(prop::option::weighted(0.8, any::<u64>()), 0..24),
